@@ -30,9 +30,10 @@ RULE = ("(a) seeded traces of 0-12 events (reports of the three severities with 
         "error identifiers, Return, RecoverableError, UnrecoverableError, foreign exceptions) under random warning_control dicts, run on the real "
         "handle_reports/FilterHandler; (b) seeded -W argument lists (class names, no- forms, unknown names, empty) through the loop of main_cli; "
         "(c) generated programs (1-14 statements) with 0-3 faults planted from a catalogue of >= 30 kinds (parse-time critical / non-critical, "
-        "compile-time, evaluation-time) and 0-2 planted warnings, each run through the command line in both report formats under random -W "
+        "compile-time, evaluation-time, and faults living only in an unused forward-referencing definition) and 0-2 planted warnings, each run through the command line in both report formats under random -W "
         "selections with an output selector (-o bin/raw, --implicit-bin, make_* directives, --lst, none), half of them over pre-existing "
-        "output files. non-trivial = distinct (fault kinds, warning kinds, selector, -W list, format) with >= 1 planted fault or warning, "
+        "output files; plus whole families: one program (one fault in an unused definition, or warnings only) under every output selector x "
+        "with/without --lst, whose status must not depend on the output options. non-trivial = distinct (fault kinds, warning kinds, selector, -W list, format) with >= 1 planted fault or warning, "
         "or a distinct trace containing an error-severity report")
 LEVEL_TEXT = ("Coq theorems over decision functions regenerated from reports.py / _cli.py on every run (emit_report, handle_reports.__exit__, "
               "FilterHandler.__call__, the -W loop): a block is left by UnrecoverableError iff an error- or critical-severity report was executed "
